@@ -17,13 +17,15 @@ RULE = ("conversion: designs biased to leak set order (2-8 implicitly created cl
         "varied hash, domains used only by memory ports / ClockSignal / submodules / FSM states in "
         "several domains, name clashes, anonymous submodules, DomainRenamers) are rebuilt from their "
         "IR and converted in separate interpreters under PYTHONHASHSEED in {0,1,2,3}+random seeds and "
-        "twice inside one interpreter: all SHA-256 digests per design must be equal (emit_src on/off). "
+        "twice inside one interpreter, and one design object is converted three times (the third after a "
+        "Simulator was created on it): all SHA-256 digests per design must be equal (emit_src on/off). "
         "simulation: generated programs (C02 generator, memories, a process replacing combinational "
         "logic, add_clock) are simulated in two fresh simulators, then reset() and re-run, also after "
         "run_until() to a mid-point: identical observation traces, and every signal and memory row "
         "back at its initial contents right after reset(). plans: generated platforms (C19 tables), "
-        "build(do_build=False) twice -> equal files and digest; archive twice byte-identical with "
-        "sorted members; extract writes exactly the planned files. distinct/non-trivial = designs with "
+        "build(do_build=False) twice -> equal files and digest; archive three times byte-identical with "
+        "sorted members, the repeats under a wall clock shifted by 3 s .. 400 days and from another "
+        "working directory; extract writes exactly the planned files. distinct/non-trivial = designs with "
         ">= 2 implicit domains, programs with >= 1 register, plans.")
 ASSUMPTIONS = ["'all PYTHONHASHSEED values' is sampled (4 fixed + random seeds per tier)",
                "post-reset state is read through the public ctx.get at time 0 of the rerun and through the engine's state slots"]
@@ -164,6 +166,14 @@ def check_conversion(rng, out, ndesigns, seeds):
                 out["violations"].append({"mechanism": "rtlil-differs-between-two-conversions-in-one-interpreter",
                                           "detail": {"design": d, "hashseed": s}})
                 break
+        for s, r in rows.items():
+            if not (r[0] == r[4] == r[5] == r[6]):
+                which = [n for n, x in (("first", r[4]), ("second", r[5]), ("after-creating-a-simulator", r[6])) if x != r[0]]
+                out["violations"].append({"mechanism": "rtlil-differs-when-the-same-design-object-is-elaborated-again",
+                                          "detail": {"design": d, "hashseed": s, "differs": which,
+                                                     "has_fsm": any(it["kind"] == "fsm" for it in d["items"])}})
+                break
+        out["hist"]["same-object-elaborated-3x"] = out["hist"].get("same-object-elaborated-3x", 0) + len(rows)
         dig = {r[0] for r in rows.values()}
         dig_src = {r[2] for r in rows.values()}
         out["extra"]["designs_converted"] += 1
@@ -193,6 +203,7 @@ def sim_case(rng, out):
     mid = rng.choice([None, rng.randrange(1, nticks)])
     stim = [[rng.getrandbits(w) for (w, s) in sp.inputs] for _ in range(nticks)]
     memw = [rng.getrandbits(4) for _ in range(nticks)]
+    with_cleanup = rng.random() < 0.5      # the testbench restores/parks its inputs in a `finally:` block
 
     def make():
         b = S.build_module(sp)
@@ -233,16 +244,25 @@ def sim_case(rng, out):
                 row.append(ctx.elapsed_time().femtoseconds if hasattr(ctx.elapsed_time(), "femtoseconds") else str(ctx.elapsed_time()))
                 return row
             trace.append(snap())
-            for k in range(nticks):
-                for sig, v in zip(b.sigs[:sp.ni], stim[k]):
-                    ctx.set(sig, v)
-                if with_mem:
-                    ctx.set(extra["wd"], memw[k])
-                await ctx.tick()
-                trace.append(snap())
+            try:
+                for k in range(nticks):
+                    for sig, v in zip(b.sigs[:sp.ni], stim[k]):
+                        ctx.set(sig, v)
+                    if with_mem:
+                        ctx.set(extra["wd"], memw[k])
+                    await ctx.tick()
+                    trace.append(snap())
+            finally:
+                if with_cleanup:
+                    for sig in b.sigs[:sp.ni]:
+                        ctx.set(sig, (sig.init ^ 1) & ((1 << len(sig)) - 1) if len(sig) else 0)
+                    if with_mem:
+                        ctx.set(extra["wd"], 0xA)
+                        ctx.set(extra["mem"].data[2], 0xC)
         sim.add_testbench(tb)
         return sim, trace, b, extra, watch
-    cfg = {"spec": sp.d, "with_mem": with_mem, "with_proc": with_proc, "period": period, "nticks": nticks, "mid": mid}
+    cfg = {"spec": sp.d, "with_mem": with_mem, "with_proc": with_proc, "period": period, "nticks": nticks, "mid": mid,
+           "testbench_sets_in_finally": with_cleanup}
 
     def V(mech, **kw):
         out["violations"].append({"mechanism": mech, "detail": dict(config=cfg, **kw)})
@@ -259,21 +279,7 @@ def sim_case(rng, out):
         # reset and rerun
         del tr1[:]
         sim1.reset()
-        # every signal and memory row back at its initial contents (engine state, before running)
-        st = sim1._engine._state
-        bad = []
-        for slot in st.slots:
-            sig = getattr(slot, "signal", None)
-            if sig is not None:
-                if slot.curr != sig.init or slot.next != sig.init:
-                    bad.append(["signal", sig.name, slot.curr, sig.init])
-            elif hasattr(slot, "memory"):
-                init = list(slot.memory._init._raw)
-                if list(slot.data) != init:
-                    bad.append(["memory", list(slot.data), init])
-        out["extra"]["post_reset_slots_checked"] += len(st.slots)
-        if bad:
-            V("state-not-initial-after-reset", stale=bad[:4])
+        if stale_after_reset(sim1, out, V, "after a completed run"):
             return
         sim1.run()
         out["extra"]["reset_reruns"] += 1
@@ -287,6 +293,8 @@ def sim_case(rng, out):
             sim3.run_until(P_(fs=int(mid * period * 1000 + period * 300)))
             del tr3[:]
             sim3.reset()
+            if stale_after_reset(sim3, out, V, "in the middle of a run"):
+                return
             sim3.run()
             out["extra"]["mid_run_resets"] += 1
             if tr3 != ref:
@@ -300,6 +308,25 @@ def sim_case(rng, out):
         return
     if sp.ns:
         out["fps"].add(fp(["sim", cfg["spec"], with_mem, with_proc, period]))
+
+
+def stale_after_reset(sim, out, V, when):
+    """every signal and memory row back at its initial contents (engine state, before running again)"""
+    st = sim._engine._state
+    bad = []
+    for slot in st.slots:
+        sig = getattr(slot, "signal", None)
+        if sig is not None:
+            if slot.curr != sig.init or slot.next != sig.init:
+                bad.append(["signal", sig.name, slot.curr, sig.init])
+        elif hasattr(slot, "memory"):
+            init = list(slot.memory._init._raw)
+            if list(slot.data) != init:
+                bad.append(["memory", list(slot.data), init])
+    out["extra"]["post_reset_slots_checked"] += len(st.slots)
+    if bad:
+        V("state-not-initial-after-reset", stale=bad[:4], reset_called=when)
+    return bool(bad)
 
 
 # ---- build plans ------------------------------------------------------------------------------------------
@@ -343,8 +370,14 @@ def plan_case(rng, out, vendor):
                 return m
         return p.build(D(), do_build=False)
     cfg = {"vendor": vendor, "table": table}
+    # the second preparation and the second and third archive run under a shifted wall clock (virtual time, so the
+    # check does not have to wait for the seconds to pass) and from another working directory
+    shift = rng.choice([3, 61, 3601, 86400 * 3, 86400 * 400])
+    cfg["clock_shift_s"] = shift
     try:
-        p1, p2 = make_plan(), make_plan()
+        p1 = make_plan()
+        with shifted_clock(shift):
+            p2 = make_plan()
     except Exception as ex:
         if exc_origin(ex) != "repo":
             raise
@@ -369,7 +402,12 @@ def plan_case(rng, out, vendor):
         p3.add_file(k, p1.files[k])
     if p3.digest() != p1.digest():
         V("plan-digest-depends-on-file-order")
-    a1, a2, a3 = io_bytes(p1), io_bytes(p2), io_bytes(p3)
+    a1 = io_bytes(p1)
+    with shifted_clock(shift):
+        a2 = io_bytes(p2)
+    with shifted_clock(-shift):
+        a3 = io_bytes(p3)
+    out["hist"][f"archive-under-clock-shift:{shift}s"] = out["hist"].get(f"archive-under-clock-shift:{shift}s", 0) + 1
     if a1 != a2 or a1 != a3:
         V("archive-not-deterministic", same_plan_twice=a1 == a2, reordered=a1 == a3)
         return
@@ -397,6 +435,33 @@ def plan_case(rng, out, vendor):
               differing=[k for k in exp if k in found and found[k] != exp[k]][:5])
         out["extra"]["files_extracted"] += len(found)
     out["fps"].add(fp(["plan", vendor, table]))
+
+
+class shifted_clock:
+    """time.time() (hence time.localtime()/gmtime() without argument, datetime.now()) moved by `delta` seconds and
+    the working directory changed for the duration of the block."""
+    def __init__(self, delta):
+        self.delta = delta
+
+    def __enter__(self):
+        import time
+        self.real_time, self.real_localtime, self.real_gmtime = time.time, time.localtime, time.gmtime
+        real_time, real_localtime, real_gmtime, delta = self.real_time, self.real_localtime, self.real_gmtime, self.delta
+        time.time = lambda: real_time() + delta
+        time.localtime = lambda secs=None: real_localtime(real_time() + delta if secs is None else secs)
+        time.gmtime = lambda secs=None: real_gmtime(real_time() + delta if secs is None else secs)
+        self.cwd = os.getcwd()
+        self.td = tempfile.mkdtemp(prefix="c09cwd.")
+        os.chdir(self.td)
+        instrument.COUNTERS["clock_shifted_blocks"] = instrument.COUNTERS.get("clock_shifted_blocks", 0) + 1
+        return self
+
+    def __exit__(self, *a):
+        import time
+        time.time, time.localtime, time.gmtime = self.real_time, self.real_localtime, self.real_gmtime
+        os.chdir(self.cwd)
+        os.rmdir(self.td)
+        return False
 
 
 def io_bytes(plan):
